@@ -101,8 +101,14 @@ def run(ctx):
         elif caller == OPEN:
             # strict: a call is the terminator of its block, so a statement of the same block precedes it
             after = all(c.bb != a["bb"] and fl.dominates(c.bb, a["bb"]) for c in creates) and bool(creates)
-            srcs = sl.sources(v)
-            same = any(z == "var:destination" for z in srcs)
+            srcs = sl.sources(v, control=False)
+            # the recorded path and the created path are the same local: the one holding self.dest.join(rel)
+            joinvars = set("var:" + nm for nm, ds_ in sl.var_defs().items() for (pj_, d_, _b) in ds_
+                           if pj_ == "" and d_[0] == "call" and re.search(r"(Path|PathBuf)::join$", d_[1]))
+            csrcs = set()
+            for c_ in creates:
+                csrcs |= set(sl.sources(c_.expr[2][0], control=False))
+            same = bool(joinvars & set(srcs) & csrcs)
             if after and same:
                 r3.ok(key, "after File::create(&destination) succeeded", loc(a["sp"]))
             else:
@@ -195,6 +201,53 @@ def confinement_checks(prog, f, fl, sl, rel_srcs):
                 if any(z.endswith("Path::starts_with") or z.endswith("PathBuf::starts_with") for z in srcs if z.startswith("call:")) and \
                         any(z.endswith("canonicalize") for z in srcs if z.startswith("call:")) and any(z.startswith("var:self.dest") for z in srcs) and tr is True:
                     out.append((n, "canonicalize(..).starts_with(dest)"))
+    # idiom (iii): the same test as an explicit loop - `for c in Path::new(rel).components() { match c { Normal(_) | CurDir => {}, _ => { reject } } }`:
+    # the sink is only reached through the loop's normal end (the `None` edge of next()), and no path from an edge on which the component may be
+    # ParentDir / RootDir / Prefix ever gets back to that normal end
+    for nx in call_sites(f, lambda p, c: re.search(r"path::Components.*::next$|Iterator::next$|::next$", p) is not None):
+        if "Components" not in ((nx.term.callee() or {}).get("substs") or [""])[0] and "Components" not in (nx.term.callee_path() or ""):
+            continue
+        isrcs = set()
+        for v in walk(nx.expr):
+            if v[0] == "var":
+                for (pj, d, _bb) in sl.var_defs().get(v[1], []):
+                    if pj == "":
+                        isrcs |= set(sl.sources(d, control=False))
+        isrcs |= set(sl.sources(nx.expr, control=False))
+        if not any(z.endswith("Path::components") for z in isrcs if z.startswith("call:")):
+            continue
+        if not (set(z for z in isrcs if z.startswith("var:")) & rel_srcs or any("content_location" in z for z in isrcs)):
+            continue
+        comp_txt = show(nx.expr, 300) + "@Some.0"
+        none_edges, bad_edges, classified = [], [], False
+        for blk in f.body.blocks:
+            t = blk.term
+            if t.k != "switch" or blk.cleanup:
+                continue
+            per_edge = {}
+            relevant = False
+            for k in range(len(t.targets) + 1):
+                n = ("e", blk.i, k)
+                efs = fl.edge_facts(n)
+                for (a, tr) in efs:
+                    if a[0] == "variant" and show(a[1], 300) == show(nx.expr, 300) and a[2] == "None" and tr:
+                        none_edges.append(n)
+                    if a[0] == "variant" and show(sl.expand(a[1]), 300) == comp_txt:
+                        relevant = True
+                per_edge[n] = efs
+            if relevant:
+                classified = True
+                for n, efs in per_edge.items():
+                    if any(a[0] == "eq" and show(a[1]) == "0" and show(a[2]) == "1" and tr for (a, tr) in efs):
+                        continue   # infeasible `otherwise`
+                    good = any(a[0] == "variant" and tr and a[2] in ("Normal", "CurDir") and show(sl.expand(a[1]), 300) == comp_txt for (a, tr) in efs)
+                    if not good:
+                        bad_edges.append(n)
+        if not (classified and none_edges and bad_edges):
+            continue
+        if all(not (set(none_edges) & fl.reach(b)) for b in bad_edges):
+            for ne in none_edges:
+                out.append((ne, "loop over Path::components() of the relative path: a component other than Normal/CurDir never reaches the loop's normal end"))
     return out
 
 
